@@ -477,6 +477,7 @@ func Main() {
 	}
 	run.Assume("the race detector sees only executed access pairs; UTXO records allocated by the mmap allocator have no shadow (records live on the Go heap in this harness; the allocator is covered by C20)")
 	run.Assume("reader goroutines use only the calls the client's network threads use concurrently with block processing (UnspentGet, TxPresent, BlockGet)")
+	os.RemoveAll(tmp) // Finish exits the process: deferred clean-up would not run
 	run.Finish("each delivery = one block of a history with 100-400-input blocks, fan-out transactions, block trees with reorganisations, Idle/HurryUp/wait between blocks and 3 concurrent reader goroutines, run in a -race build at GOMAXPROCS 1/2/4/16 with pseudo-random yields at hook points and snapshot-writer speeds 0/50ms/2s; distinct_nontrivial = distinct per-run hook-hit-count signatures (a proxy for distinct interleavings of saver/aborter/committer)",
 		"deliveries", "hook_count_signatures", 3)
 }
